@@ -1,38 +1,4 @@
 // ---- units/filter/part.rs ----
-// DltChar4's own PartialEq (src/dlt/mod.rs: compares the 4 bytes as one u32): the REAL eq body is verified against
-// "equality of the 4 bytes" (eq_spec); only u32::from_ne_bytes is a trusted wrapper (host order = little endian)
-#[verifier::external_body]
-pub fn vx_u32_from_ne_bytes(b: [u8; 4]) -> (r: u32)
-    ensures r as int == le32(b[0], b[1], b[2], b[3]),
-{ u32::from_ne_bytes(b) }
-pub proof fn lemma_le32_inj(a0: u8, a1: u8, a2: u8, a3: u8, b0: u8, b1: u8, b2: u8, b3: u8)
-    requires le32(a0, a1, a2, a3) == le32(b0, b1, b2, b3),
-    ensures a0 == b0 && a1 == b1 && a2 == b2 && a3 == b3,
-{
-    let x: u32 = (a0 as u32 + 256 * (a1 as u32) + 65536 * (a2 as u32) + 16777216 * (a3 as u32)) as u32;
-    let y: u32 = (b0 as u32 + 256 * (b1 as u32) + 65536 * (b2 as u32) + 16777216 * (b3 as u32)) as u32;
-    assert(x == y);
-    assert(a0 == (x % 256) as u8 && a1 == ((x / 256) % 256) as u8 && a2 == ((x / 65536) % 256) as u8 && a3 == ((x / 16777216) % 256) as u8) by(bit_vector)
-        requires x == (a0 as u32 + 256 * (a1 as u32) + 65536 * (a2 as u32) + 16777216 * (a3 as u32)) as u32;
-    assert(b0 == (y % 256) as u8 && b1 == ((y / 256) % 256) as u8 && b2 == ((y / 65536) % 256) as u8 && b3 == ((y / 16777216) % 256) as u8) by(bit_vector)
-        requires y == (b0 as u32 + 256 * (b1 as u32) + 65536 * (b2 as u32) + 16777216 * (b3 as u32)) as u32;
-}
-impl vstd::std_specs::cmp::PartialEqSpecImpl for DltChar4 {
-    open spec fn obeys_eq_spec() -> bool { true }
-    open spec fn eq_spec(&self, other: &DltChar4) -> bool { self.char4@ == other.char4@ }
-}
-impl PartialEq for DltChar4 {
-//@ extract src/dlt/mod.rs <PartialEq for DltChar4>::eq
-//@   rules R1 R3 R4 R5 R6
-//@   hint start
-//@|    proof {
-//@|        if le32(self.char4[0], self.char4[1], self.char4[2], self.char4[3]) == le32(other.char4[0], other.char4[1], other.char4[2], other.char4[3]) {
-//@|            lemma_le32_inj(self.char4[0], self.char4[1], self.char4[2], self.char4[3], other.char4[0], other.char4[1], other.char4[2], other.char4[3]);
-//@|            assert(self.char4@ =~= other.char4@);
-//@|        }
-//@|    }
-//@ end
-}
 impl DltChar4 {
 //@ extract src/dlt/mod.rs DltChar4::as_buf
 //@   spec
